@@ -106,13 +106,58 @@ attribute absent -/
 inductive Avail | ok | raises | absent
 deriving DecidableEq, Repr
 
+/-- A file-like body.  `pieces` is its *read script*: the data in the portions in which the object
+hands it out (bytes, or code points for a text file).  A `read(n)` never crosses the end of a piece,
+so it may return FEWER than `n` items although more data follows (raw / unbuffered streams, pipes,
+`makefile(buffering=0)`, custom `RawIOBase` objects); an empty piece is an empty `read()` result, i.e.
+end-of-file, whatever follows it in the script.  A regular (buffered) file with content `c` is the
+one-piece script `[c]`: every `read(n)` returns a full block until the data runs out. -/
 structure FileB where
-  content : List Nat        -- bytes, or code points for a text file
-  pos : Nat
+  pieces : List (List Nat)
+  pos : Nat                 -- offset (`tell()`), counted over the pieces before the first empty one
   seek : Avail
   tell : Avail
   text : Bool               -- `isinstance(body, io.TextIOBase)`
 deriving DecidableEq, Repr
+
+/-- everything a reader can ever get out of a read script: the pieces before the first empty one -/
+def scriptData : List (List Nat) → List Nat
+  | [] => []
+  | p :: ps => if p.isEmpty then [] else p ++ scriptData ps
+
+/-- all the data of the file (from offset 0) -/
+def FileB.content (f : FileB) : List Nat := scriptData f.pieces
+
+/-- the result of `read(n)` at offset `k` of a read script: what is left of the piece that contains
+offset `k`, at most `n` items of it; nothing at or after an empty piece -/
+def readAt (n : Nat) : List (List Nat) → Nat → List Nat
+  | [], _ => []
+  | p :: ps, k =>
+    if p.isEmpty then []
+    else if k < p.length then (p.drop k).take n
+    else readAt n ps (k - p.length)
+
+/-- one `body.read(n)` call: the data returned and the file afterwards -/
+def FileB.read (f : FileB) (n : Nat) : List Nat × FileB :=
+  let d := readAt n f.pieces f.pos
+  (d, { f with pos := f.pos + d.length })
+
+/-- the loop of `chunk_readable()`:
+`while True: datablock = body.read(blocksize); if not datablock: break; yield datablock` —
+the blocks yielded and the file afterwards.  The first argument is recursion fuel
+(`chunkReadable_spec` in `Lemmas/Wire`: `content.length + 1` is always enough, the loop ends with an
+empty read and never because the fuel ran out). -/
+def chunkReadableAux (n : Nat) : Nat → FileB → List (List Nat) × FileB
+  | 0, f => ([], f)
+  | fuel + 1, f =>
+    let r := f.read n
+    if r.1.isEmpty then ([], r.2)
+    else
+      let rest := chunkReadableAux n fuel r.2
+      (r.1 :: rest.1, rest.2)
+
+def chunkReadable (n : Nat) (f : FileB) : List (List Nat) × FileB :=
+  chunkReadableAux n (f.content.length + 1) f
 
 inductive Body
   | none
@@ -122,15 +167,6 @@ inductive Body
   | file (f : FileB)
   | iter (chunks : List Chunk) (oneShot : Bool)
 deriving DecidableEq, Repr
-
-/-- successive `read(n)` results up to the first empty one (`n = 0` reads nothing) -/
-def blocks (n : Nat) (l : List Nat) : List (List Nat) :=
-  if n = 0 then [] else go l.length l
-where
-  go : Nat → List Nat → List (List Nat)
-    | 0, _ => []
-    | _, [] => []
-    | fuel + 1, x :: t => (x :: t).take n :: go fuel ((x :: t).drop n)
 
 structure ChunksCL where
   chunks : Option (List Chunk)
@@ -147,10 +183,8 @@ def bodyToChunks (body : Body) (meth : Str) (blocksize : Nat) : Except Exc Chunk
     let b ← encodeUtf8 s                                   -- to_bytes(body)
     pure ⟨some [.bytes b], some b.length, .str s⟩
   | .file f =>
-    let data := f.content.drop f.pos
-    let bl := blocks blocksize data
-    .ok ⟨some (bl.map fun d => if f.text then Chunk.str d else Chunk.bytes d), none,
-         .file { f with pos := if blocksize = 0 then f.pos else max f.pos f.content.length }⟩
+    let r := chunkReadable blocksize f
+    .ok ⟨some (r.1.map fun d => if f.text then Chunk.str d else Chunk.bytes d), none, .file r.2⟩
   | .buffer b k => .ok ⟨some [.buf b k], some b.length, .buffer b k⟩     -- mv.nbytes
   | .iter cs one => .ok ⟨some cs, none, if one then .iter [] true else .iter cs one⟩
 
